@@ -259,11 +259,14 @@ Fixpoint phaseA4_inner (c : cfg) (fuel : nat) (a : acc) (l : list Z) : acc * boo
     end
   end.
 
+(* the socket loop; since 43d7136 it stops as soon as less than a whole core is needed *)
 Fixpoint phaseA4 (c : cfg) (a : acc) (socks : list (list Z)) : acc * bool :=
   match socks with
   | [] => (a, false)
-  | l :: t => let '(a', r) := phaseA4_inner c (length l) a l in
-              if r then (a', true) else phaseA4 c a' t
+  | l :: t =>
+    if negb (needs a (cpc (c_topo c))) then (a, false)
+    else let '(a', r) := phaseA4_inner c (length l) a l in
+         if r then (a', true) else phaseA4 c a' t
   end.
 
 Definition or_else {A} (x y : option A) : option A := match x with Some _ => x | None => y end.
